@@ -275,6 +275,7 @@ func cmdC13(args []string) {
 	seedF := fs.String("seed", "", "")
 	nSeeds := fs.Int("seeds", 0, "")
 	mapSeed := fs.Uint64("mapseed", 0, "replay: run exactly this map-order seed")
+	noEvidence := fs.Bool("no-evidence", false, "")
 	fs.Parse(args)
 	if *tier == "" {
 		*tier = os.Getenv("VERIF_TIER")
@@ -433,9 +434,11 @@ func cmdC13(args []string) {
 	if execs == 0 {
 		die2("no generator executed")
 	}
-	jb, _ := json.MarshalIndent(ev, "", " ")
-	os.MkdirAll(filepath.Join(verifDir(), "evidence"), 0o755)
-	os.WriteFile(filepath.Join(verifDir(), "evidence", "C13.json"), jb, 0o644)
+	if !*noEvidence && *mapSeed == 0 {
+		jb, _ := json.MarshalIndent(ev, "", " ")
+		os.MkdirAll(filepath.Join(verifDir(), "evidence"), 0o755)
+		os.WriteFile(filepath.Join(verifDir(), "evidence", "C13.json"), jb, 0o644)
+	}
 	fmt.Printf("verifsim: C13 %s: %d generator executions over %d seeds, %d map iterations permuted, %.1fs, %d violation(s)\n", *tier, execs, n, permuted, wallS, nViol)
 	if nViol > 0 {
 		os.Exit(1)
